@@ -83,7 +83,7 @@ pub fn gen_tick(rng: &mut Rng, avoid: bool, big: bool, n_small: usize) -> (State
         cands.push(Cand { rule: 0, w: 0, k: 60_000, shard: 0 });
     }
     if big {
-        let count = *rng.pick(&[900u16, 1015, 1024, 1025, 1100, 2000, 3000]);
+        let count = *rng.pick(&[900u16, 1015, 1024, 1025, 1100, 2000, 3000, 4096, 4500]);
         let m = *rng.pick(&[1u8, 4, 16, 200]);
         state.insts[0].filler = Some((1000, count, m));
         for k in 1000..1000 + count {
